@@ -808,11 +808,18 @@ def _number_after_last_v(ctx, hfn):
 
 _number_after_last_v.positive = True
 row('C05', TVL, 'number-after-last-v', _number_after_last_v)
-row('C05', 'decode::DecodeBeatmap::decode', 'default-version',
-    _contains(M('unwrap_or', ANY(), K(14)), 'a missing/unreadable version means the latest version'))
-row('C05', 'decode::parse_first_section', 'failed-version-line-may-open-a-section',
-    _contains(IF(ANY(), CONTAINS(C('try_from_line', M('curr_line', ANY())))),
-              'the failed version line itself is tested as a section header'))
+def _dv_row(ctx, hfn):
+    return _default_version(ctx, hfn)
+
+
+def _flr_row(ctx, hfn):
+    return _failed_line_reexamined(ctx, hfn)
+
+
+_dv_row.positive = True
+_flr_row.positive = True
+row('C05', 'decode::DecodeBeatmap::decode', 'default-version', _dv_row)
+row('C05', 'decode::parse_first_section', 'failed-version-line-may-open-a-section', _flr_row)
 
 
 def _version_loop_skips_only_blank(ctx, hfn):
@@ -877,6 +884,151 @@ def _version_loop_any_depth(ctx, hfn):
 row('C05', 'decode::parse_version', 'version-search-stops-at-first-non-blank-line', _version_loop_any_depth)
 
 
+def _version_protocol(facts, hfn=None):
+    """{'found': V1, 'failed': V2, 'end': V3}: the variants of a crate-local enum that parse_version returns for a parsed
+    version (carrying it), a failed version line and the end of input; None when it does not return such an enum"""
+    hfn = hfn or facts.hir.get('decode::parse_version')
+    if hfn is None:
+        return None
+    got = {}
+
+    def sig(p):
+        if not isinstance(p, dict):
+            return '?'
+        k = p.get('k')
+        if k in ('ptstruct', 'pstruct'):
+            return p['path'].get('name', '?') + '(' + ','.join(sig(x) for x in p.get('pats', [])) + ')'
+        if k == 'pexpr':
+            return p['e'].get('name', '?')
+        return '_' if k == 'bind' else (k or '?')
+
+    def variant_of(e):
+        e = strip(e)
+        if isinstance(e, dict) and e.get('k') == 'call' and e['f'].get('k') == 'path' and e['f'].get('name') == 'Ok' and len(e['args']) == 1:
+            e = strip(e['args'][0])
+        if isinstance(e, dict) and e.get('k') == 'call' and e['f'].get('k') == 'path' and 'Ctor(Variant' in (e['f'].get('dk') or ''):
+            d = e['f'].get('def', '')
+            if not d.startswith(('std::', 'core::')):
+                return d, len(e['args'])
+        if isinstance(e, dict) and e.get('k') == 'path' and 'Ctor(Variant' in (e.get('dk') or ''):
+            d = e.get('def', '')
+            if not d.startswith(('std::', 'core::')):
+                return d, 0
+        return None
+
+    def visit(n, anc):
+        val = None
+        if n.get('k') == 'ret' and 'e' in n:
+            val = variant_of(n['e'])
+        if val is None:
+            return
+        outcome = 'end'
+        for i, a in enumerate(anc):
+            if a.get('k') == 'match' and not a.get('src', '').startswith('TryDesugar'):
+                for arm in a['arms']:
+                    inside = any(x is arm['body'] for x in anc[i + 1:]) or arm['body'] is n
+                    sg = sig(arm['pat'])
+                    if inside and sg.startswith('Break(Ok'):
+                        outcome = 'found'
+                    elif inside and sg.startswith('Break(Err'):
+                        outcome = 'failed'
+        got.setdefault(outcome, set()).add(val)
+    H.walk(hfn['body'], visit)
+    tail = hfn['body'].get('expr') if hfn['body'].get('k') == 'block' else None
+    tv = variant_of(tail) if tail is not None else None
+    if tv is not None:
+        got.setdefault('end', set()).add(tv)
+    if set(got) != {'found', 'failed', 'end'} or any(len(v) != 1 for v in got.values()):
+        return None
+    f_, fl, en = (next(iter(got[k])) for k in ('found', 'failed', 'end'))
+    if len({f_[0], fl[0], en[0]}) != 3 or f_[1] != 1 or fl[1] != 0 or en[1] != 0:
+        return None
+    if len({x[0].rsplit('::', 1)[0] for x in (f_, fl, en)}) != 1:
+        return None
+    return {'found': f_[0].rsplit('::', 1)[1], 'failed': fl[0].rsplit('::', 1)[1], 'end': en[0].rsplit('::', 1)[1]}
+
+
+def _pat_variant_names(p, out):
+    if isinstance(p, dict):
+        if p.get('k') == 'path' and p.get('name'):
+            out.add(p['name'])
+        for v in p.values():
+            _pat_variant_names(v, out)
+    elif isinstance(p, list):
+        for x in p:
+            _pat_variant_names(x, out)
+
+
+def _default_version(ctx, hfn):
+    """a missing or unreadable version means the latest version: `version.unwrap_or(14)` -- or, with the outcome enum,
+    the value handed to `State::create` is the carried version for the found variant and 14 for the other two"""
+    if find(ctx, hfn['body'], M('unwrap_or', ANY(), K(14))):
+        return True, '', None
+    proto = _version_protocol(ctx.facts)
+    if proto is None:
+        return False, 'a missing/unreadable version means the latest version not found (expected `unwrap_or(14)`)', None
+    import symeval as SE
+    for dpt in (1, 2):
+        vh = H.inlined_fn(ctx.facts, hfn, depth=dpt, keep=('parse_version',))
+        c2 = Ctx(ctx.facts, H.binding_inits(vh), vh)
+        calls = find(c2, vh['body'], C('create', ANY()))
+        for n, _a in calls:
+            arg = strip(n)['args'][0]
+            try:
+                t = SE.SymEval(None, budget=3000).value(arg, {})
+            except SE.Stop:
+                continue
+            okall = True
+            for role, var in proto.items():
+                def dec(c, var=var):
+                    if c[0] != 'pat':
+                        return None
+                    names = set()
+                    _pat_variant_names(c[1], names)
+                    return var in names if names & set(proto.values()) else None
+                leaf = SE.evaluate(t, dec)
+                if leaf is None:
+                    okall = False
+                    break
+                c2.env = {}
+                if role == 'found':
+                    if c2.const_value(leaf) is not None:
+                        okall = False
+                elif not K(14).m(c2, leaf):
+                    okall = False
+            if okall:
+                return True, '', strip(n).get('ln')
+    return False, 'the version handed to the state is not (the parsed version | 14 when there is none)', None
+
+
+def _failed_line_reexamined(ctx, hfn):
+    """the line that failed as a version line is itself tested as a section header -- and only that line"""
+    if find(ctx, hfn['body'], IF(ANY(), CONTAINS(C('try_from_line', M('curr_line', ANY()))))):
+        return True, '', None
+    proto = _version_protocol(ctx.facts)
+    hits = find(ctx, hfn['body'], C('try_from_line', M('curr_line', ANY())))
+    if proto is None or not hits:
+        return False, 'the failed version line itself is tested as a section header not found', None
+    # the re-examination sits in an arm for exactly the failed variant
+    node = strip(hits[0][0])
+    for a in hits[0][1]:
+        if isinstance(a, dict) and a.get('k') == 'match' and not a.get('src', '').startswith('TryDesugar'):
+            for arm in a['arms']:
+                inside = []
+                H.walk(arm['body'], lambda x, anc: inside.append(x) if x is node else None)
+                if inside or strip(arm['body']) is node:
+                    names = set()
+                    _pat_variant_names(arm['pat'], names)
+                    ok = names & set(proto.values()) == {proto['failed']}
+                    return ok, '' if ok else ('the current line is re-examined for %s, not exactly for the failed version line'
+                                              % sorted(names & set(proto.values()))), node.get('ln')
+    return False, 'the re-examination of the current line is not tied to the failed-version-line outcome', node.get('ln')
+
+
+_default_version.positive = True
+_failed_line_reexamined.positive = True
+
+
 def _version_table(ctx, hfn):
     """what parse_version yields per outcome of try_version_from_line: (version, use-current-line)"""
     got = {}
@@ -934,6 +1086,13 @@ def _version_table(ctx, hfn):
     H.walk(hfn['body'], visit)
     exp = {'Break(Ok(_))': {('Some', False)}, 'Break(Err(_))': {('None', True)}, 'end-of-input': {('None', False)}}
     ok = got == exp
+    if not ok and not got:
+        # the three outcomes as the variants of a private enum instead of (Option, flag): Found(version) / failed line /
+        # end of input must be three different variants, the first carrying the version; what the consumers make of
+        # them is decided by the rows `default-version` and `failed-version-line-may-open-a-section`
+        proto = _version_protocol(ctx.facts, hfn)
+        if proto is not None:
+            return True, '', None
     return ok, '' if ok else ('version outcomes are %s; expected: parsed version -> (Some, continue with the next line), '
                               'failed version line -> (None, re-examine this line), end of input -> (None, -)' % got), None
 
